@@ -2,6 +2,7 @@
 from __future__ import annotations
 
 import ast
+import re
 from ..core import utext
 
 from ..core import AnalysisError, Program, call_name, norm, parent
@@ -249,7 +250,7 @@ def check_symmetry(prog: Program, res: Result) -> None:
     inst = "are_planar: every 4-subset is examined with each point off-plane"
     if dead:
         n0 = muts[dead[0]]
-        res.bad("R-GEO-SYM", f"are_planar: `{dead[0]}` mutated but never read",
+        res.bad("R-GEO-SYM", "are_planar: rotated work queue is never read",
                 fi.loc(n0), f"are_planar: the local `{dead[0]}` is rotated "
                 "but never read, so only the LAST point of each 4-subset is "
                 "ever tested against the plane of the first three: the "
@@ -257,7 +258,7 @@ def check_symmetry(prog: Program, res: Result) -> None:
         return
     # symmetric forms: the rotation feeds the points used, or a volume form
     t = utext(fi.node)
-    if ("p1, p2, p3, p4 = d" in t or "are_planar_volume(" in t
+    if (re.search(r"p1, p2, p3, p4 = \w+\b", t) or "are_planar_volume(" in t
             or "itertools.permutations(" in t or "permutations(" in t):
         res.ok("R-GEO-SYM", inst, fi.loc())
     else:
